@@ -66,6 +66,23 @@ Theorem C09_gen_connectives_cpp :
 Proof. vm_compute. reflexivity. Qed.
 Print Assumptions C09_gen_connectives_cpp.
 
+(** ** Quantifiers: in each of the four cases any/all x for-each/for-range, every template
+    [_transform_any_or_all] can return is written with the helper of that quantifier kind and
+    that iteration kind (C++ [common::All/Some/AllRange/SomeRange], Java
+    [stream().allMatch/anyMatch] and [IntStream.range], TypeScript [AasCommon.every/some]
+    over [AasCommon.map] and [AasCommon.range], Python [all/any] over a generator). *)
+Theorem C09_gen_quantifiers :
+  quantifier_table_ok python_quantifier_table && quantifier_table_ok typescript_quantifier_table
+  && quantifier_table_ok java_quantifier_table && quantifier_table_ok cpp_quantifier_table = true.
+Proof. vm_compute. reflexivity. Qed.
+Print Assumptions C09_gen_quantifiers.
+
+Theorem C09_quantifier_tables_sound : forall t, quantifier_table_ok t = true ->
+  (forall a g a' g', In (a, g, a', g') t -> a' = a /\ g' = g) /\
+  (forall a g, exists a' g', In (a, g, a', g') t).
+Proof. exact quantifier_table_sound. Qed.
+Print Assumptions C09_quantifier_tables_sound.
+
 (** ** The tables never raise [KeyError]. *)
 Theorem C09_tables_total : forall op,
   lookup_cmp python_comparison_map op <> None /\ lookup_cmp typescript_comparison_map op <> None /\
